@@ -100,7 +100,7 @@ func TestVerifC13(t *testing.T) {
 			return roots
 		},
 		ExhaustMax: map[string]int{"quick": 4000, "thorough": 200000},
-		Runs:       map[string]int{"quick": 6000, "thorough": 1000000},
+		Runs:       map[string]int{"quick": 20000, "thorough": 2000000},
 		LeakSig:    "",
 		Real:       []string{"regprocessor.RegisterBidirectional / processBdReq / processC2SWrapper / sendToZMQ / ReloadSubnets", "phantoms.GetPhantomSubnetSelector + PhantomIPSelector.Select (real files)", "min transport"},
 		Stub:       []string{"ZMQ socket (recording zmqSender)", "goroutine scheduling and the package's mutexes (simulator, emulated RWMutex with writer preference)"},
